@@ -39,7 +39,12 @@ def tie_skeleton(ctx, broken, specs_faults, name, need_det_ok=True, extra_valid=
         out.append((tr, P))
         if P["opts"] is None:
             continue
-        inputs = S.c_inputs(P)
+        try:
+            inputs = S.c_inputs(P)
+            S.c_final(P); S.x_expected(P)
+        except (ValueError, TypeError) as ex:
+            shape_errors.append((i, "trace holds values outside the model (non-finite state?): " + repr(ex)[:200]))
+            continue
         detok = f"(det_ok {inputs})" if (P["opts"]["det"] and need_det_ok and not P["crashed"]) else "true"
         if P["opts"]["det"] and not P["crashed"] and not P["target_fault"]:
             # the two historic-improvement oracles are the rounded difference between the history row the code reads and the incumbent
@@ -197,17 +202,21 @@ def mon_c13(tr):
         if e[0] == "poll_begin":
             polled_since_probe = True
             kb, SI, piter = e[1]["k"], e[1]["SI"], None
-            imprs, ncall = [], 0
+            imprs, raw_imprs, ncall = [], [], 0
             j = i + 1
             while ev[j][0] != "poll_end":
                 if ev[j][0] == "impr" and ev[j][1] == "poll":
                     imprs.append(ev[j][7])
+                    raw_imprs.append(ev[j])
                 if ev[j][0] == "call" and ev[j][1] == "poll":
                     ncall += 1
                 j += 1
                 if j >= len(ev):
                     return None  # the poll died (exception): nothing to check
             ka = ev[j][1]["k"]
+            if len(imprs) > ncall and raw_imprs[ncall][3] != ev[j][1]["fval"] and not (math.isnan(raw_imprs[ncall][3]) and math.isnan(ev[j][1]["fval"])):
+                # the stalling test of a failed poll compares a recorded iterate with the CURRENT incumbent estimate (all noise modes)
+                return ("stall-test-stale-incumbent", f"mesh-acceleration test of a poll compared the history with {raw_imprs[ncall][3]} while the incumbent estimate is {ev[j][1]['fval']}")
             per_call = imprs[:ncall]
             best = max([0.0] + per_call)
             good = best > SI
@@ -233,6 +242,8 @@ def mon_c13(tr):
             last_probe_k = s["k"]
             polled_since_probe = False
         i += 1
+    if "result" in tr and tr["result"].get("mesh_size") is not None and tr["result"]["mesh_size"] != 2.0 ** last_probe_k:
+        return ("non-poll-change", f"reported mesh size {tr['result']['mesh_size']} differs from the mesh size after the last poll 2^{last_probe_k}")
     tol_user = float(o0["tol_mesh"])
     if "result" in tr and tr["result"]["msg_id"] == 3 and not (tr["result"]["mesh_size"] < tol_user):
         return ("tolmesh-msg", f"stopped by tol_mesh but final mesh {tr['result']['mesh_size']} >= tol_mesh {tol_user}")
@@ -276,7 +287,7 @@ def mon_c10(tr):
     exc = tr.get("exc") or tr.get("construct_exc")
     if exc is None:
         return ("fault-swallowed", f"fault {kind} at call {k}: optimize() returned normally")
-    want = "TargetFault" if kind == "raise" else ("KeyError" if kind == "raise_key" else "ValueError")
+    want = {"raise": "TargetFault", "raise_key": "KeyError", "raise_stop": "StopIteration"}.get(kind, "ValueError")
     if exc[0] != want:
         return ("exception-type", f"fault {kind} at call {k}: {exc[0]} ({exc[1][:80]}) propagated instead of {want}")
     if len(tr["calls"]) != k:
